@@ -13,7 +13,7 @@
   OBLIGATIONS (checked by the harness):
     hints_table nonmatching_passthrough nonmatching_template_irrelevant
     declaration_order_pipeline pipeline_stages first_match_wins identity_body_is_identity
-    identity_templates_passthrough
+    identity_templates_passthrough filter_terminates
     once_hint_irrelevant buffer_hint_irrelevant lazy_eq_eager window_footprint
     matcher_state_in_sync output_wellnested select_keeps_nesting
     lawful_single lawful_simple lawful_generic positional_not_lawful root_context_not_matched
@@ -26,6 +26,7 @@ import Genshi.Lemmas.MatchOnce
 import Genshi.Lemmas.MatchEquiv
 import Genshi.Lemmas.MatchPipeline2
 import Genshi.Lemmas.MatchIdentity
+import Genshi.Lemmas.MatchTotal
 import Genshi.Model.MatchPath
 import Genshi.Model.MatchLazy
 import Genshi.Gen.MatchHints
@@ -101,15 +102,25 @@ theorem first_match_wins {σ : Type} (e : Event) (s : Nat) (en : Option Nat) (mt
 
 /-- **identity_body_is_identity.**  Insert at any position `k` of any template list a template whose
     body is `${select('.')}` (it reproduces the element it matched) — whatever its path, matcher state
-    and hints.  On every well-nested stream the output is the same as without it.  (Both filters are
-    assumed to terminate, i.e. to be given enough fuel; matchers ignore `updateonly`, bodies are well
-    nested.)  Proved from the pipeline theorem: the identity template is a stage of its own, and that
-    stage is the identity. -/
-theorem identity_body_is_identity {σ : Type} (f f' : Nat) (items : List (Item σ)) (L0 : List (MT σ)) (tid : MT σ)
-    (k : Nat) (r r' : List (MT σ) × List Event) (hnr : NoReg items) (hneu : Neutral (evs items))
+    and hints.  On every well-nested stream the filter with it terminates and yields the same output as
+    without it.  (Matchers ignore `updateonly`, bodies are well nested.)  Proved from the pipeline
+    theorem: the identity template is a stage of its own, and that stage is the identity. -/
+theorem identity_body_is_identity {σ : Type} (f : Nat) (items : List (Item σ)) (L0 : List (MT σ)) (tid : MT σ)
+    (k : Nat) (r : List (MT σ) × List Event) (hnr : NoReg items) (hneu : Neutral (evs items))
     (hok : ∀ t ∈ L0, OKt t) (hid : IdentityBody tid) (hff : FlagFree tid) (hk : k ≤ L0.length)
-    (h : run f 0 none items L0 = some r) (h' : run f' 0 none items (ins tid k L0) = some r') : r'.2 = r.2 :=
-  run_identity_insert f f' items L0 tid k r r' hnr hneu hok hid hff hk h h'
+    (h : run f 0 none items L0 = some r) :
+    ∃ f' r', run f' 0 none items (ins tid k L0) = some r' ∧ r'.2 = r.2 := by
+  have hidb : BodyOK tid.body := by intro st; rw [hid]; simp [trackB]
+  obtain ⟨f', r', h'⟩ := run_terminates 0 none (ins tid k L0) items hnr hneu
+    (ins_forall (P := fun t => BodyOK t.body) tid hidb k L0 (fun t ht => (hok t ht).1))
+  exact ⟨f', r', h', run_identity_insert f f' items L0 tid k r r' hnr hneu hok hid hff hk h h'⟩
+
+/-- **Termination.**  On every well-nested, registration-free stream the filter yields a result when
+    given enough fuel: the body of a match is matched against strictly later templates only. -/
+theorem filter_terminates {σ : Type} (s : Nat) (e : Option Nat) (M : List (MT σ)) (items : List (Item σ))
+    (hnr : NoReg items) (hneu : Neutral (evs items)) (hok : ∀ t ∈ M, BodyOK t.body) :
+    ∃ f r, run f s e items M = some r :=
+  run_terminates s e M items hnr hneu hok
 
 /-- Identity templates among templates that never fire: the filter returns the stream unchanged, for
     *every* stream (well nested or not, registrations anywhere), every window and any matchers. -/
